@@ -282,10 +282,13 @@ pub fn gen(thorough: bool, seed: u64, out: &mut impl Write) {
     "vm=5.0.1.51,2.0.1.21;a0=;a1=;a2=;a3=;a4=",
     "vm=2.0.1.21;a0=E5.0.1.51;a1=;a2=;a3=;a4=",
     "vm=2.0.1.21;a0=R5.0.1;a1=;a2=;a3=;a4=",
+    // a key of another DID *method* with the same method-specific id and fragment, found before the holder's own
+    "vm=2.0.1.21;a0=E52.0.1.51;a1=;a2=;a3=;a4=",
+    "vm=52.0.1.51,2.0.1.21;a0=;a1=;a2=;a3=;a4=",
   ];
   for pl in placements {
     for sc in ["~", "vm", "0", "3", "4"] {
-      for kid in ["F2.0.1", "H1", "B1", "F5.0.1", "F2.1.1", "D2", "E", "~"] {
+      for kid in ["F2.0.1", "H1", "B1", "F5.0.1", "F52.0.1", "F2.1.1", "D2", "E", "~"] {
         for sig in [21u32, 51] {
           for mid in ["~", "2.0.1", "5.0.1"] {
             if mid != "~" && kid != "F2.0.1" && kid != "~" {
